@@ -34,3 +34,19 @@ package keyvalue
 //@   ghostset at "keyList := []string{}": nkeys = len(keys)
 //@   invariant loop 1: len(keyList) == rangeindex + 1 && nkeys == len(keys) && asked
 //@   ensures result1 == nil ==> asked && len(result0) == nkeys
+
+// keyvalue.NewTKey (C05): the user key is stored NUL-terminated, so no key's type key is a prefix of
+// another's and a closed interval [NewTKey(a), NewTKey(b)] holds exactly the keys a <= k <= b.
+//@ func NewTKey
+//@   prop C05
+//@   ensures result1 == nil && len(result0) == len(key) + 3 && result0[0] == keyStandard && result0[len(result0) - 1] == 0
+
+// sendJSONValuesInRange (C05): the key-value variants of a range request scan the same closed interval
+// [NewTKey(keyBeg), NewTKey(keyEnd)] as the keys-only variant (GetKeysInRange): both bounds are
+// NUL-terminated type keys of the given user keys.
+//@ func Data.sendJSONValuesInRange
+//@   prop C05
+//@   requires d != nil
+//@   safety_off
+//@   modifies *
+//@   assert at "err = db.ProcessRange(ctx, first, last, &storage.ChunkOp{}, func(c *storage.Chunk) error {": len(first) == len(keyBeg) + 3 && first[len(first) - 1] == 0 && len(last) == len(keyEnd) + 3 && last[len(last) - 1] == 0 && first[0] == keyStandard && last[0] == keyStandard
